@@ -25,7 +25,7 @@ var proj *dawn.Project
 func TestMain(m *testing.M) {
 	run = ev.Start("C20", "exploration",
 		"a real Cache() value is obtained through Project.REPLEnv; rapid draws 2-6 caller goroutines, each making 1-3 once(key, callable) calls over 1-3 "+
-			"keys, an outcome pattern per callable invocation (succeed with a fresh unique value / fail), 0-2 scheduling points inside the callable, and a "+
+			"keys, an outcome pattern per callable invocation (succeed with a fresh unique value or, in a third of the cases, with None / False / 0 / the empty string / fail), 0-2 scheduling points inside the callable, and a "+
 			"schedule: choice vector for the cooperative token scheduler over once's scheduling points (entry, after the read-locked miss, around both lock "+
 			"acquisitions) or a delay table for free-running execution. Oracle per key: among calls that returned successfully at most one callable "+
 			"invocation succeeded; every successful caller holds the identical value object; a failed call leaves the key absent (a later call invokes the "+
@@ -56,6 +56,7 @@ type Call struct {
 type Case struct {
 	Callers  [][]Call       `json:"callers"`
 	Outcomes []bool         `json:"outcomes"` // per callable invocation index (global order): true = fail
+	Vals     []int          `json:"vals,omitempty"` // per invocation index: kind of value a succeeding callable returns (0 = fresh list)
 	Yields   int            `json:"yields"`
 	Pol      cosched.Policy `json:"pol"`
 }
@@ -108,7 +109,20 @@ func exec(c Case) (v ev.Verdict) {
 					if idx < len(c.Outcomes) && c.Outcomes[idx] {
 						return nil, fmt.Errorf("callable %d fails", idx)
 					}
-					val := starlark.NewList([]starlark.Value{starlark.MakeInt(idx)}) // fresh, identity-comparable
+					var val starlark.Value = starlark.NewList([]starlark.Value{starlark.MakeInt(idx)}) // fresh, identity-comparable
+					if idx < len(c.Vals) {
+						// what a callable without a return statement, or a cheap probe, yields: falsy singletons
+						switch c.Vals[idx] {
+						case 1:
+							val = starlark.None
+						case 2:
+							val = starlark.False
+						case 3:
+							val = starlark.MakeInt(0)
+						case 4:
+							val = starlark.String("")
+						}
+					}
 					o.mu.Lock()
 					o.succeeded[key] = append(o.succeeded[key], val)
 					o.mu.Unlock()
@@ -218,6 +232,12 @@ func gen(t *rapid.T) Case {
 		c.Callers = append(c.Callers, calls)
 	}
 	c.Outcomes = make([]bool, total)
+	if rapid.IntRange(0, 2).Draw(t, "falsy") == 2 {
+		c.Vals = make([]int, total)
+		for i := range c.Vals {
+			c.Vals[i] = rapid.IntRange(0, 4).Draw(t, "val")
+		}
+	}
 	for i := range c.Outcomes {
 		c.Outcomes[i] = rapid.IntRange(0, 3).Draw(t, "fails") == 3
 	}
